@@ -82,6 +82,7 @@ def facts_for(repo=REPO, features='default', quiet=False):
             'CARGO_TARGET_DIR': target,
             'VERIF_FACTS_OUT': out,
             'VERIF_CRATE': 'opcua',
+            'CARGO_INCREMENTAL': '0',
         })
         t = time.time()
         cmd = ['cargo', '+nightly', 'check', '--offline', '-p', 'opcua', '--lib'] + FEATURE_SETS[features]
@@ -90,6 +91,16 @@ def facts_for(repo=REPO, features='default', quiet=False):
             sys.stderr.write(r.stdout[-6000:])
             sys.stderr.write('\nverif: fact extraction failed (exit %d)\n' % r.returncode)
             raise SystemExit(2)
+        if os.path.realpath(repo) != os.path.realpath('/repo'):
+            # scratch copies compile under a different path: drop their per-path artefacts straight away
+            cur = set()
+            for pat in ('debug/deps/libopcua-*', 'debug/deps/opcua-*', 'debug/.fingerprint/opcua-*', 'debug/incremental/opcua-*'):
+                for f in glob.glob(os.path.join(target, pat)):
+                    try:
+                        if time.time() - os.path.getmtime(f) < 600 and os.path.getmtime(f) >= t - 1:
+                            shutil.rmtree(f, ignore_errors=True) if os.path.isdir(f) else os.remove(f)
+                    except OSError:
+                        pass
         if not quiet:
             sys.stderr.write('verif: extracted facts %s in %.1fs\n' % (os.path.basename(out), time.time() - t))
         # keep the facts directory small: newest 6 files
